@@ -6,9 +6,15 @@ from quantem.core.io.serialize import AutoSerialize
 class Plain(AutoSerialize):
     """Plain python class; attributes are whatever the graph spec says."""
 
+    @property
+    def summary(self):   # a read-only property: a skip name may coincide with it
+        return len(vars(self))
+
 
 class Node(AutoSerialize):
     """Used for attribute-nested children."""
+
+    kind = "node"        # a class attribute: a skip name may coincide with it
 
 
 class Leaf(Node):
